@@ -73,6 +73,17 @@ def s_process_node(ctx, opkind=0):
     op_type = "Constant" if flags["is_constant_op"] else ("ConstantOfShape" if flags["blacklisted"] else ("Transpose" if flags["always_fold_op"] else "Add"))
     attrs = {}
     node = W.node(op_type, inputs, attrs=attrs)
+    attr_kind = ["none", "int", "reference"][ctx.choose(3, "attribute")]
+    if attr_kind != "none":
+        a = SObj(ir.Attr, "axis")
+        is_ref = attr_kind == "reference"
+        a.fields.update(name="axis", type=ir.AttributeType.INT, value=(None if is_ref else 7), ref_attr_name=("outer_axis" if is_ref else None))
+
+        def f_is_ref():
+            raise AssertionError
+        I.models[f_is_ref] = (lambda r: lambda interp: r)(is_ref)
+        a.fields["is_ref"] = f_is_ref
+        node.fields["attributes"]["axis"] = a
     if flags["has_graph_attribute"]:
         a = SObj(ir.Attr, "body")
         a.fields.update(name="body", type=ir.AttributeType.GRAPH, value=Opaque("graph"))
@@ -98,7 +109,8 @@ def s_process_node(ctx, opkind=0):
     I.models[cf.registry.lookup_evaluators] = lambda interp, d, o, v: []
     DEF = list(cf.DEFAULT_CONSTANT_FOLD_BLACKLIST)
     okev = ctx.choose(2, "reference evaluation succeeds") == 0
-    I.models[cf._reference_evaluator.evaluate] = lambda interp, *a, **k: (evals.append(a) or (NArr([1, 2], None) if okev else None))
+    eval_kwargs = []
+    I.models[cf._reference_evaluator.evaluate] = lambda interp, *a, **k: (evals.append(a) or eval_kwargs.append(k) or (NArr([1, 2], None) if okev else None))
     I.models[cf.FoldConstantsPass.new_initializer] = lambda interp, s, n, arr: "new_initializer_value"
     I.models[cf.FoldConstantsPass.new_constant] = lambda interp, s, n, arr: None
     g = SObj(object, "graph")
@@ -125,6 +137,16 @@ def s_process_node(ctx, opkind=0):
                   and not any(gi for gi, _, _, _ in present) and all(hc for _, hc, _, _ in present) and sf is not False)
         ctx.check("C03.folding.process_node.evaluation_only_behind_all_guards", guards, CL03)
         ctx.check("C04.folding.process_node.no_evaluation_of_nodes_reading_graph_inputs", not any(gi for gi, _, _, _ in present), CL04)
+        ctx.check("C03.folding.process_node.no_evaluation_with_an_unresolved_attribute_reference", attr_kind != "reference",
+                  CL03 + " — inside a function an attribute may refer to the function's attribute parameter: its value is not known, the operator's default must not be used")
+        a = evals[-1]
+        vals = list(a[3:])
+        pos_ok = len(vals) == len(inputs) and all((v is None) == (x is None) and (x is None or v is x.fields["const_value"].arr) for v, x in zip(vals, inputs))
+        ctx.check("C03.folding.process_node.evaluator_gets_every_input_at_its_own_position", a[:2] == ("", op_type) and pos_ok,
+                  CL03 + " — an omitted optional input stays an empty position, the later inputs must not move")
+        kw = eval_kwargs[-1]
+        ctx.check("C03.folding.process_node.evaluator_gets_the_attributes_by_name", set(kw) == set(node.fields["attributes"]) and
+                  (attr_kind != "int" or kw.get("axis") == 7), CL03)
         if sf is None:
             large = [sz > limit for _, _, sz, _ in present]
             gate = (not flags["blacklisted"]) and ((not any(large)) or (op_type == "Transpose" and all(sc or not lg for (_, _, _, sc), lg in zip(present, large))))
@@ -187,6 +209,10 @@ def s_visit_graph_outputs(ctx):
     I.run_closure(I.closure_of(cf.FoldConstantsPass.visit_graph), [p, graph], {})
     if kind == 1 and allowed:
         ctx.check("C04.folding.visit_graph.replaced_output_keeps_the_output_name", graph.outputs == [alias] and alias.fields["name"] == "Y", CL04)
+        # the renamed value and the old output now carry the same name: the pass must report the model as modified,
+        # which is what makes call() run NameFixPass ("value names are unique")
+        ctx.check("C04.folding.visit_graph.renaming_an_output_marks_the_model_modified", p.fields["_modified"] is True,
+                  "C04: 'value names are unique' — two values named like the output exist until NameFixPass, which runs only when _modified is set")
     else:
         ctx.check("C04.folding.visit_graph.output_untouched_otherwise", graph.outputs == [out] and out.fields["name"] == "Y" and alias.fields["name"] == "tmp", CL04)
     ctx.check("C04.folding.visit_graph.graph_inputs_never_written", graph.inputs == ["IN"], CL04)
@@ -309,3 +335,142 @@ def s_move_initializers(ctx):
 
 SCENARIOS.append(Scenario("C04.folding.move_initializers", s_move_initializers, F("_move_initializers_to_graph"), kind="bounded",
                           bound="initializer names drawn from {w, w_1, w_2} in branch and main graph (all 64 combinations)"))
+
+
+def s_reference_evaluator(ctx):
+    """ReferenceEvaluator.evaluate / get_evaluator are total: whatever the reference implementation does (missing
+    operator, any exception raised while loading or evaluating — IndexError for an out-of-range Gather in a dead branch,
+    ZeroDivisionError, a library-specific error ...), the optimizer sees None ("cannot fold") and never an exception."""
+    import onnx
+    cf = _cf()
+    I = Interp(ctx)
+
+    class LibraryError(Exception):
+        pass
+    excs = [IndexError("index 5 is out of bounds"), ZeroDivisionError("division by zero"), KeyError("k"), OverflowError("x"),
+            LibraryError("reference implementation failed"), RuntimeError("r"), TypeError("t"), ValueError("v"), NotImplementedError("n"),
+            AttributeError("a"), AssertionError("assert")]
+    how = ["load fails", "no implementation", "eval raises", "eval returns"][ctx.choose(4, "behaviour of the reference implementation")]
+    exc = excs[ctx.choose(len(excs), "exception")] if how in ("load fails", "eval raises") else None
+    result = Opaque("value")
+
+    def ev(*a, **k):
+        raise AssertionError
+    seen = []
+
+    def m_ev(interp, *a, **k):
+        seen.append((a, k))
+        if how == "eval raises":
+            raise PyRaise(exc)
+        return result
+    I.models[ev] = m_ev
+    impl = SObj(object, "op_impl_class")
+    impl.fields["eval"] = ev
+
+    def m_load(interp, domain, op, version, *a, **k):
+        if how == "load fails":
+            raise PyRaise(exc)
+        if how == "no implementation":
+            raise PyRaise(onnx.reference.op_run.RuntimeContextError("no implementation") if hasattr(onnx.reference, "op_run") and hasattr(onnx.reference.op_run, "RuntimeContextError") else NotImplementedError("none"))
+        return impl
+    I.models[onnx.reference.ops.load_op] = m_load
+    r_self = SObj(cf.ReferenceEvaluator, "ref")
+    try:
+        r = I.run_closure(I.closure_of(cf.ReferenceEvaluator.evaluate), [r_self, "", "Gather", 13, "in0", "in1"], {"axis": 0})
+    except PyRaise as e:
+        ctx.check("C04.folding.reference_evaluator.never_raises", False, "C04: 'optimize, rewrite and fold_constants return without raising'")
+        return
+    ctx.check("C04.folding.reference_evaluator.never_raises", True, "C04: 'optimize, rewrite and fold_constants return without raising'")
+    if how == "eval returns":
+        ctx.check("C03.folding.reference_evaluator.returns_what_the_reference_implementation_computed", r is result and
+                  seen == [(("in0", "in1"), {"axis": 0})], CL03)
+    else:
+        ctx.check("C03.folding.reference_evaluator.none_when_not_evaluated", r is None, CL03)
+
+
+SCENARIOS.append(Scenario("C04.folding.reference_evaluator", s_reference_evaluator,
+                          [(REL, "ReferenceEvaluator.evaluate"), (REL, "ReferenceEvaluator.get_evaluator")],
+                          trusted=["onnx.reference.ops.load_op / OpRun.eval may raise any Exception subclass"]))
+
+
+def s_replace_node(ctx):
+    """replace_node: exactly the folded node is replaced (new nodes inserted at its position, its outputs redirected to
+    the new outputs), unused initializers are cleared only for graphs, and the model is reported as modified."""
+    import onnx_ir as ir
+    cf = _cf()
+    I = Interp(ctx)
+    p = SObj(cf.FoldConstantsPass, "pass")
+    p.fields.update(_modified=False)
+    is_graph = ctx.choose(2, "root is a graph (0) or a function (1)") == 0
+    root = SObj(ir.Graph if is_graph else ir.Function, "root")
+    a, b = SObj(ir.Value, "a"), SObj(ir.Value, "b")
+    ins = [a, None, b] if ctx.choose(2, "an optional input is omitted") == 1 else [a, b]
+    outs = [SObj(ir.Value, "out0")]
+    node = SObj(ir.Node, "node")
+    node.fields.update(inputs=ins, outputs=outs, graph=root, domain="", op_type="Add", name="n")
+    new_nodes = [SObj(ir.Node, "new")] if ctx.choose(2, "replacement has nodes") == 1 else []
+    new_outs = [SObj(ir.Value, "newout")]
+    rep = I.call(cf.Replacement, [new_outs, new_nodes])
+    log = []
+    I.models[cf._record_contributing_values] = lambda interp, n, r: log.append(("record", n, r))
+
+    def m_replace(interp, root_, ins_point, old_nodes, new_nodes_, old_values, new_values):
+        log.append(("replace", root_, ins_point, list(old_nodes), list(new_nodes_), list(old_values), list(new_values)))
+        node.fields["graph"] = None
+        node.fields["inputs"] = [None] * len(node.fields["inputs"])   # the detached node loses its inputs
+    I.models[ir.convenience.replace_nodes_and_values] = m_replace
+    I.models[cf._clear_unused_initializers] = lambda interp, vals: log.append(("clear", list(vals)))
+    try:
+        I.run_closure(I.closure_of(cf.FoldConstantsPass.replace_node), [p, node, rep, root], {})
+    except PyRaise as e:
+        ctx.check("C04.folding.replace_node.never_raises", False, CL04)
+        return
+    reps = [e for e in log if e[0] == "replace"]
+    ok = len(reps) == 1 and reps[0][1] is root and reps[0][2] is node and reps[0][3] == [node] and reps[0][4] == new_nodes \
+        and reps[0][5] == outs and reps[0][6] == new_outs
+    ctx.check("C04.folding.replace_node.replaces_exactly_the_folded_node_and_redirects_its_outputs", ok,
+              "C03/C04: only the folded node is removed; its outputs are replaced by the new outputs, position for position")
+    clears = [e for e in log if e[0] == "clear"]
+    if is_graph:
+        ctx.check("C04.folding.replace_node.initializers_of_the_removed_node_are_checked_for_further_use",
+                  len(clears) == 1 and clears[0][1] == [a, b] and log.index(clears[0]) > log.index(reps[0]) if reps else False, CL04)
+    else:
+        ctx.check("C04.folding.replace_node.functions_have_no_initializers_to_clear", not clears, CL04)
+    ctx.check("C04.folding.replace_node.marks_the_model_modified", p.fields["_modified"] is True,
+              "C04: 'value names are unique' — NameFixPass runs only when the pass reports a modification")
+    recs = [e for e in log if e[0] == "record"]
+    ctx.check("C03.folding.replace_node.provenance_recorded_before_the_node_is_detached", len(recs) == 1 and recs[0][1] is node and
+              recs[0][2] is rep and (not reps or log.index(recs[0]) < log.index(reps[0])), CL03)
+
+
+def s_visit_node(ctx):
+    import onnx_ir as ir
+    cf = _cf()
+    I = Interp(ctx)
+    p = SObj(cf.FoldConstantsPass, "pass")
+    is_function = ctx.choose(2, "root is a function") == 1
+    root = SObj(ir.Function if is_function else ir.Graph, "root")
+    node = SObj(ir.Node, "node")
+    a1, a2 = SObj(ir.Attr, "attr1"), SObj(ir.Attr, "attr2")
+    node.fields["attributes"] = {"then_branch": a1, "axis": a2}
+    folds = ctx.choose(2, "process_node returns a replacement") == 1
+    rep = SObj(cf.Replacement, "replacement")
+    log = []
+    I.models[cf.FoldConstantsPass.process_node] = lambda interp, s, n, is_function=None: (log.append(("process", n, is_function)) or (rep if folds else None))
+    I.models[cf.FoldConstantsPass.visit_attribute] = lambda interp, s, a: log.append(("attr", a))
+    I.models[cf.FoldConstantsPass.replace_node] = lambda interp, s, n, r, rt: log.append(("replace", n, r, rt))
+    I.run_closure(I.closure_of(cf.FoldConstantsPass.visit_node), [p, node, root], {})
+    ctx.check("C03.folding.visit_node.process_node_told_whether_the_container_is_a_function", log[:1] == [("process", node, is_function)],
+              "C04: initializers cannot be added to functions: the folding result must be a Constant node there")
+    if folds:
+        ctx.check("C03.folding.visit_node.replacement_applied_to_this_node_in_this_container", log[1:] == [("replace", node, rep, root)], CL03)
+    else:
+        ctx.check("C03.folding.visit_node.subgraphs_of_an_unfolded_node_are_visited", log[1:] == [("attr", a1), ("attr", a2)],
+                  "C03: nodes inside If/Loop bodies are optimized too; every attribute is offered to visit_attribute")
+
+
+SCENARIOS += [
+    Scenario("C04.folding.replace_node", s_replace_node, F("FoldConstantsPass.replace_node"),
+             trusted=["ir.convenience.replace_nodes_and_values(root, insertion_point, old_nodes, new_nodes, old_values, new_values) (onnx_ir)"]),
+    Scenario("C03.folding.visit_node", s_visit_node, F("FoldConstantsPass.visit_node")),
+]
